@@ -28,7 +28,11 @@ def _fns():
 def _compress(ex, st, c):
     comp, dec = _fns()
     r = comp(c.z)
-    st.assume(dec(r) == c.z)        # from_bytes(decompress(compress(to_bytes(c)))) == c   (A2/A3); implies injectivity
+    # from_bytes(decompress(compress(to_bytes(c)))) == c   (A2/A3); implies injectivity.  Stated for every class (a closed
+    # axiom), so that it is available under quantifiers too
+    x = z3.Const("cx", c.z.sort())
+    st.assume(z3.ForAll([x], dec(comp(x)) == x, patterns=[comp(x)]))
+    st.assume(dec(r) == c.z) if not (getattr(ex, "_cur_bound_ids", None)) else None
     return Val(ClassKey, r)
 
 
